@@ -89,7 +89,7 @@ def cases(draw, tier):
 
     def transfer(pi=None):
         V = draw(st.sampled_from([0, 0.5, 1, 2, 3, 4, 6, 8, 12]))
-        L = draw(st.sampled_from([None, None] + DY))
+        L = draw(st.sampled_from([None, None] + DY + ['inf']))        # 'inf': limited by the pipe only, like None
         return {'op': 'transfer', 'p': draw(st.integers(0, len(pipes) - 1)) if pi is None else pi, 'total': V, 'thr': L}
     for i in range(n):
         tr = transfer()
@@ -188,6 +188,8 @@ def judge(out, case, it, oc, exc, ctx):
             if node.get('p', 0) != pi:
                 continue
             L = node.get('thr')
+            if L == 'inf':
+                L = None          # an infinite limit of its own = no limit of its own
             L = F(num(L)) if L is not None else (T if T is not None else None)
             remove = None
             if okev is None:
